@@ -24,6 +24,14 @@ CLAIMED = {
         text="call histories (1-10 steps) over a run-time table of every procedure exported by the 15 R7RS-small libraries plus the (chibi) VM primitives (~370 procedures) applied to 0..arity+2 arguments from a typed pool with boundary and ill-typed values, plus generated/mutated source text through both readers and eval, plus nesting depths to 200000; each case runs in a forked child of an ASan build whose Scheme heap is poisoned by the gc.c hook; oracles: no signal / sanitizer report, heap checker after a final collection, and a fixed probe program printing exactly what it prints in a pristine context; exploration only",
         note="non-termination is inconclusive, not a violation; out-of-memory under the 256 MB heap limit is excluded by the property; two open known findings (generic object printer on non-output ports, native reader recursion depth) are excluded by construction and reported as KNOWN-FINDING; record-system internals (make-getter etc.) are outside the claimed domain",
         technique="property-based fuzzing of call sequences and source text with sanitizer (ASan + heap poisoning) and containment-probe oracles"),
+    "C03": dict(
+        text="programs from a typed, evaluation-order-insensitive grammar over all core and derived forms of the statement, plus the enumerated family of variable-capture patterns (7 roles x nesting depth 1-4, exhaustive in the thorough tier), executed by chibi and by an independent CPS definitional interpreter (pbt/refscheme.py); printed output must be identical; Hypothesis shrinks the choice sequence of a failing program; exploration only",
+        note="trusted: refscheme.py as a rendering of R7RS 4/6.10/6.11/7.3 for the generated subset (programs it cannot decide - budget, 'it is an error' - are discarded and counted); uncaught raises are reported by a guard inside the program text",
+        technique="property-based differential testing against a reference interpreter (Hypothesis-shrunk program generator + exhaustive enumeration of capture patterns)"),
+    "C09": dict(
+        text="generated programs biased to what simplify.c rewrites (constant tests, constant lets with shadowing/mutation, overflowing literal arithmetic, dead erroring branches, dead statements) run with the pass on and off in one binary, on the SEXP_USE_SIMPLIFY=0 build and against refscheme.py; arithmetic tuples through the 128-bit helpers run on the default and the SEXP_USE_CUSTOM_LONG_LONGS=1 build and against Python integers; exploration only",
+        note="trusted: refscheme.py / Python integers; programs whose meaning R7RS leaves undefined are not generated",
+        technique="property-based differential testing across optimisation settings and build variants, anchored by a reference model"),
 }
 
 NOT_YET = "check not built yet in this session (planned, see DESIGN.md section 4)"
